@@ -84,11 +84,9 @@ def step (s : St) (line : String) : St × String :=
         match hd.splitOn ";" |>.map String.toInt?, parseRows rows with
         | [some cr, some cc, some cs, some vis], some g =>
           let emu := emuMeaning g
-          let exp := Expected.expected (C01.cwOf s.base.dict) s.base.caps next
+          -- a glyph that does not fit in the rest of its row shows as a blank in its style (F02 repaired, 990e1a4)
+          let exp := Expected.expectedC (C01.cwOf s.base.dict) s.base.caps next
           let v :=
-            if !(next.all (fitsRowB (C01.cwOf s.base.dict) 0)) then
-              "FAIL terminal-specific behaviour relied on: glyph does not fit in the rest of the row"
-            else
             match C01.gridDiff next exp emu with
             | some d => s!"FAIL emulator {d}"
             | none =>
